@@ -42,6 +42,9 @@ CLAIMS = {
  "C02": ("The entity pool is proved against a ghost view (permutation of ids with the free list as its prefix, alive set, set of issued handles): Get returns an id that was not alive, makes exactly it alive, returns its current generation and a handle that was never issued before (since creation or the last Reset); recycled ids come back LIFO, fresh ids are the next index; Recycle (of an alive handle) makes exactly that id dead and strictly increases its generation; nobody else's liveness or generation changes; Alive(e) iff the generations agree; lemmas: a handle whose id was recycled since it was issued is never reported alive again (deadForever), the zero entity is never alive, two alive handles with one id are equal; Len = slots - free; Reset returns to the fresh pool view and empties the issued set. The bit set used for target flags and World.Alive are proved; invariants hold for all pool states and recycling depths.",
          TRUST + " KNOWN FINDING C02-gen-wrap: generations wrap at 2^32 (Recycle is proved under gen != MaxUint32; confirmed failing without it). The world-side paths (createEntity/createEntities index sizing, RemoveEntity, removeEntities, LoadEntities) call the pool under these contracts but are not themselves discharged yet (table storage is unsafe memory): 'alive count = creations - removals over all histories' is proved at the pool level only. capacity() (64-bit mul/div) is an assumed contract.",
          "contract-based deductive verification with ghost state: WP/symbolic execution over go/ssa, obligations discharged by z3/cvc5"),
+ "C03": ("For the cached-filter (pre-filtered table list) strategy: Query.Next is proved to advance the global position P = psum(table index) + row by exactly one, moving to the first later non-empty table when the current one is exhausted (all skipped tables are empty), and to close the query and release its lock bit exactly when P was the last position; Step(n) (loop invariant) ends at P+n or exhausts exactly when fewer than n entities remain; Count returns psum(N); EntityAt(i) returns the entity at the unique table k with psum(k) <= i < psum(k+1) and row i-psum(k), and panics iff i is out of range; Entity() reads the current row; closeQuery releases exactly the query's bit. psum is one uninterpreted prefix-sum function shared by all of them, so Next/Step/Count/EntityAt agree by construction.",
+         TRUST + " The batch-result and node-walk strategies run on other branches of the same functions and are excluded by the precondition q.isFiltered (not yet under contract). psum's defining equations are definitional assumptions; its monotonicity/no-overflow below 2^30 (a consequence by induction) is assumed where used. 'Visits every matching entity exactly once' is the induction on P over the successor contract (paper step). archetypeAccess.GetEntity (unsafe read) is an assumed contract. KNOWN FINDING C03-step-truncation (Step/EntityAt narrow int to uint32).",
+         "contract-based deductive verification with an uninterpreted prefix-sum spec function: WP/symbolic execution over go/ssa, obligations discharged by z3/cvc5"),
 }
 
 NA = {
